@@ -62,7 +62,9 @@ def name_call(E, n, st, name):
     for s1, av in evargs(E, n, st):
         if isinstance(av, Exc): yield s1, av; continue
         args, kw = av
-        if name == "len":
+        if name == "getattr" and len(args) == 2 and isinstance(args[1].py, str):
+            yield s1, E.get_field(s1, args[0], args[1].py)
+        elif name == "len":
             o = args[0]
             if isinstance(o.ty, SeqT) or isinstance(E.content_type(o) if o.ty.sort == Ref else None, ListT):
                 sq, v = E.seq_of(s1, o); yield s1, SV(sq.len(v), INT)
@@ -462,6 +464,9 @@ def callee_defaults(E, c):
 def apply_contract(E, c, recv, args, kw, st, n):
     """assert requires; havoc modifies; assume ensures (normal edge) / raises[T] (one edge per declared T)."""
     params = bind_params(E, c, recv, args, kw, n, st)
+    for nm, val in c.static.items():
+        if params[nm].py != val:
+            raise Unsupported("%s is only specified for %s == %r" % (c.qual, nm, val))
     pre = st.copy(); pre.loc = dict(params)           # callee's view of the pre-state
     ev_pre = SpecEval(E, pre, pre, {})
     line = getattr(n, "lineno", 0)
